@@ -646,7 +646,21 @@ class QGen:
         special = [(txt, m) for txt, cls in self.obj_sources(scope, fuel) for m in self.s.classes[cls].methods if m.kind == "num" and (m.enum or m.tree_type)]
         if special:
             opts.append((3, "typed-leaf"))
+        # the same leaves as a per-event array: a sequence of objects mapped to the enum / tree_type'd method
+        special_seq = [m for cls in self.s.classes for m in self.s.classes[cls].methods if m.kind == "num" and (m.enum or m.tree_type)]
+        if special_seq:
+            opts.append((2, "typed-leaf-seq"))
         k = self.weighted(opts)
+        if k == "typed-leaf-seq":
+            os_ = self.objseq(scope, fuel - 1)
+            ms = [m for m in self.s.classes[os_[1]].methods if m.kind == "num" and (m.enum or m.tree_type)] if os_ else []
+            if ms:
+                m = self.pick(ms)
+                v = self.newvar(scope, "j")
+                self.labels.add("enum-column-1D" if m.enum else "tree_type-column-1D")
+                self.nops += 1
+                return (f"{os_[0]}.Select(lambda {v}: {v}.{m.name}())", TSeq(TNum(m.tree_type or "int")))
+            k = "num"
         if k == "typed-leaf":
             txt, m = self.pick(special)
             self.labels.add("enum-column" if m.enum else "tree_type-column")
